@@ -237,10 +237,10 @@ PROPS = {
         trusted=LOG_TRUSTED, assumptions=["each storage operation is atomic and persisted in issue order"],
     ),
     "C07": dict(
-        theorems=["HC.C07.torn_entry_ignored", "HC.C07.readEntries_stops", "HC.C07.torn_header_falls_back"],
+        theorems=["HC.C07.torn_atomic", "HC.C07.torn_atomic_from", "HC.C07.torn_then_continue", "HC.C07.torn_entry_ignored", "HC.C07.readEntries_stops", "HC.C07.torn_header_falls_back"],
         bridge_modules=["HC.Bridge.Oplog"], bridging=OPLOG_BRIDGE,
         runs=_c07_runs,
-        partial="the fallback for a torn header slot assumes the CRC rejects the torn slot (CrcDetects); torn entries need no such assumption (length check). Torn bitfield/tree/data writes are covered by the correspondence run only.",
+        partial="proved on the model (torn_atomic): after any history of calls and reopen steps of a writer core, for any further append_batch/clear/read, any storage operation k of it and any number t of bytes of that write that arrive, Hypercore::new succeeds and the recovered core represents the log before or after the call and stays usable; torn data, bitfield-page, tree-node and log-entry writes need no assumption, a torn header write assumes that the checksum rejects the half-written slot (CrcDetects, evaluated by the harness on every torn state it generates). Not proved (run only): torn writes of proof applications on a replica and of make_read_only; a second crash after recovery from a torn bitfield page (the store's size is then not a multiple of the page size until the page is rewritten).",
         rule="as C02, and for every crash point whose next operation is a write: every proper byte prefix (writes <= 64 bytes) or cuts at 1,3,4,5,7,8,9,12, half, last byte, every 512 bytes and 4 seeded cuts",
         trusted=LOG_TRUSTED, assumptions=["CrcDetects: a torn header slot does not pass the checksum unless it equals the old or the new frame"],
     ),
